@@ -356,6 +356,20 @@ ADDENDA["C16"] = ADDENDA.get("C16", " Also:") + " tokens_to_string leaves the to
 ADDENDA["C18"] = ADDENDA.get("C18", " Also:") + " No printer / comparison method mentions object identity."
 ADDENDA["C19"] = ADDENDA.get("C19", " Also:") + " Token objects are not changed on the way (C16's table)."
 ADDENDA["C20"] = ADDENDA.get("C20", " Also:") + " No hash() of text / id() / clock / random reaches a result."
+ADDENDA["C01"] = ADDENDA.get("C01", " Also:") + " Parameter values (USING / SET) are printed as literals the grammar's decoder reads back."
+ADDENDA["C02"] = ADDENDA.get("C02", " Also:") + " parse_sql never formats the tree it returns."
+ADDENDA["C04"] = ADDENDA.get("C04", " Also:") + " Actions that make a name from raw id text take the back-quotes off; blanks inside quotes belong to the name."
+ADDENDA["C06"] = ADDENDA.get("C06", " Also:") + " A window frame is refused or rendered as the frame spelled, in any letter case (36 spellings)."
+ADDENDA["C07"] = ADDENDA.get("C07", " Also:") + " The literal codec is examined for a renderer built from a dialect name and from a dialect class; native query text survives text() (reference regexes)."
+ADDENDA["C08"] = ADDENDA.get("C08", " Also:") + " Alias / table-name collisions between join members; same-named tables of two databases; CTE column lists."
+ADDENDA["C09"] = ADDENDA.get("C09", " Also:") + " FROM (sub-select): the outer query runs over the step of that sub-select."
+ADDENDA["C10"] = ADDENDA.get("C10", " Also:") + " An inner select FROM a CTE name reaches the CTE route under any default namespace."
+ADDENDA["C11"] = ADDENDA.get("C11", " Also:") + " Gate facts include integrations whose names contain files / views."
+ADDENDA["C12"] = ADDENDA.get("C12", " Also:") + " The walker's replace table (every subset of three list elements replaced, interpreted) is re-run."
+ADDENDA["C13"] = ADDENDA.get("C13", " Also:") + " query_traversal interpreted on every list field with every subset of three elements replaced."
+ADDENDA["C14"] = ADDENDA.get("C14", " Also:") + " A table after an open partition leaves [partition, fetch] on the step stack."
+ADDENDA["C19"] = ADDENDA.get("C19", " Also:") + " Lexer message probes with line ends inside comments / strings and with the illegal character in the first line."
+ADDENDA["C20"] = ADDENDA.get("C20", " Also:") + " Stores to attributes of other repository classes are class-level writes."
 
 NA_PENDING = "check under construction in this session; not claimed until its rule module is committed"
 
